@@ -310,10 +310,78 @@ func AssignAtoms() []Atom {
 				Atom{Cat: "assign-field", Strat: st, Stmt: "_ = struct{ F " + t + " }{F: " + v.Text + "}"},
 				Atom{Cat: "assign-mapval", Strat: st, Stmt: "_ = map[int]" + t + "{1: " + v.Text + "}"},
 				Atom{Cat: "assign-send", Strat: st, Stmt: "var c chan " + t + "; c <- " + v.Text},
+				// the same question through the multi-value, redeclaring, variadic and element-store paths
+				Atom{Cat: "assign-redefine", Strat: st, Stmt: "var x " + t + "; x, k := " + v.Text + ", 1; _, _ = x, k"},
+				Atom{Cat: "assign-parallel", Strat: st, Stmt: "var x " + t + "; var k int; k, x = 1, " + v.Text + "; _, _ = x, k"},
+				Atom{Cat: "assign-variadic", Strat: st, Stmt: "f := func(n int, xs ..." + t + ") {}; f(1, " + v.Text + ")"},
+				Atom{Cat: "assign-deferarg", Strat: st, Stmt: "defer func(" + t + ") {}(" + v.Text + ")"},
+				Atom{Cat: "assign-arrayelem", Strat: st, Stmt: "var arr [2]" + t + "; arr[1] = " + v.Text},
+				Atom{Cat: "assign-mapstore", Strat: st, Stmt: "var mp map[int]" + t + "; mp[0] = " + v.Text},
+				Atom{Cat: "assign-deref", Strat: st, Stmt: "px := new(" + t + "); *px = " + v.Text},
+				Atom{Cat: "assign-fieldstore", Strat: st, Stmt: "var sx struct{ F " + t + " }; sx.F = " + v.Text},
+				Atom{Cat: "assign-keyedarray", Strat: st, Stmt: "_ = [2]" + t + "{1: " + v.Text + "}"},
 			)
 		}
+		// a variable of every target type on the receiving end of a multi-value call (int, error)
+		st := "assign-tuple/" + t
+		out = append(out,
+			Atom{Cat: "assign-tuple", Strat: st, Stmt: "var x " + t + "; x, e2 := two(); _, _ = x, e2"},
+			Atom{Cat: "assign-tuple", Strat: st, Stmt: "var e2 " + t + "; x, e2 := two(); _, _ = x, e2"},
+			Atom{Cat: "assign-tuple", Strat: st, Stmt: "var x " + t + "; var e2 error; x, e2 = two(); _, _ = x, e2"},
+			Atom{Cat: "assign-tuple", Strat: st, Stmt: "var x int; var e2 " + t + "; x, e2 = two(); _, _ = x, e2"},
+			Atom{Cat: "assign-tuple", Strat: st, Stmt: "var x " + t + "; x, _ = two(); _ = x"},
+			Atom{Cat: "assign-tuple", Strat: st, Stmt: "var x " + t + "; x, ok := a.(int); _, _ = x, ok"},
+			Atom{Cat: "assign-tuple", Strat: st, Stmt: "var ok " + t + "; x, ok := a.(int); _, _ = x, ok"},
+			Atom{Cat: "assign-tuple", Strat: st, Stmt: "var x " + t + "; x, ok := m[\"k\"]; _, _ = x, ok"},
+			Atom{Cat: "assign-tuple", Strat: st, Stmt: "var ok " + t + "; x, ok := <-ch; _, _ = x, ok"},
+			Atom{Cat: "assign-tuple", Strat: st, Ret: "(" + t + ", error)", Stmt: "return two()"},
+			Atom{Cat: "assign-tuple", Strat: st, Stmt: "f := func(x " + t + ", e2 error) {}; f(two())"},
+		)
 	}
 	return out
+}
+
+// ConstGroupAtoms: parenthesised constant groups with explicit typed / explicit untyped / implicitly repeated specs
+// (iota, the type and the expression of the preceding non-empty spec are repeated), followed by one use of the last
+// constant whose folded value depends on the constant's type (integer vs float division, complement, mixed addition).
+func ConstGroupAtoms() []Atom {
+	type spec struct{ text, class string }
+	explicit := []spec{
+		{"%s uint8 = iota", "tint"}, {"%s float64 = iota", "tfloat"}, {"%s MyInt = iota + 5", "tint"}, {"%s uint8 = 7", "tint"}, {"%s float64 = 7", "tfloat"}, {"%s MyF = 2.5", "tfloat"},
+		{"%s = iota", "uint"}, {"%s = 7", "uint"}, {"%s = 2.5", "ufloat"}, {"%s = 1 << iota", "uint"}, {"%s = \"s\"", "ustring"}, {"%s = iota * 2.5", "ufloat"},
+	}
+	all := append(append([]spec{}, explicit...), spec{"%s", "implicit"})
+	// (operators over typed constants are decided - and fail - in the operator catalogue; here one division is enough
+	// to make the value depend on the constant's type)
+	uses := []string{"_ = %s / 16 * 3", "v := %s; _ = v", "var v float32 = %s; _ = v"} // x/16*3: 0 for every integer constant of the groups (< 16), non-zero for a float one
+	var out []Atom
+	names := []string{"ka", "kb", "kc", "kd"}
+	add := func(specs []spec) {
+		var sb strings.Builder
+		strat := "constgroup"
+		sb.WriteString("const (\n")
+		for i, sp := range specs {
+			sb.WriteString("\t" + fmt.Sprintf(sp.text, names[i]) + "\n")
+			strat += "/" + sp.class
+		}
+		sb.WriteString(")")
+		last := names[len(specs)-1]
+		for k, u := range uses {
+			out = append(out, Atom{Cat: "constgroup", Strat: fmt.Sprintf("%s/use%d", strat, k), Decl: sb.String(), Stmt: fmt.Sprintf(u, last)})
+		}
+	}
+	for _, a := range explicit {
+		for _, b := range all {
+			add([]spec{a, b})
+			for _, c := range all {
+				add([]spec{a, b, c})
+				if b.class != "implicit" && c.class == "implicit" {
+					add([]spec{a, b, c, {"%s", "implicit"}})
+				}
+			}
+		}
+	}
+	return dedup(out)
 }
 
 // CompareAtoms: `_ = v == w` over composite operand classes too (comparability).
@@ -342,7 +410,9 @@ func BuiltinAtoms() []Atom {
 		Operand{"int", "type"}, Operand{"[]int", "type"}, Operand{"map[string]int", "type"}, Operand{"chan int", "type"}, Operand{"MyStruct", "type"}, Operand{"[3]int{}", "varray"},
 		Operand{"\"hello\"", "ustring"}, Operand{"fn(1)", "vint"}, Operand{"[2]int{1, 2}", "varray"}, Operand{"*par", "varray"}, Operand{"st.A", "vint"}, Operand{"pst.B", "vstring"}, Operand{"st", "vstruct"})
 	var out []Atom
-	add := func(strat, stmt string) { out = append(out, Atom{Cat: "builtin", Strat: "builtin/" + strat, Stmt: stmt}) }
+	add := func(strat, stmt string) {
+		out = append(out, Atom{Cat: "builtin", Strat: "builtin/" + strat, Stmt: stmt})
+	}
 	for _, f := range []string{"len", "cap", "real", "imag", "new", "panic", "print", "println", "close", "clear", "recover", "unsafe.Sizeof", "unsafe.Alignof", "unsafe.Offsetof", "unsafe.StringData", "unsafe.SliceData", "min", "max"} {
 		for _, x := range args {
 			if f == "panic" || f == "print" || f == "println" || f == "close" || f == "clear" {
